@@ -56,7 +56,9 @@ const char* RULE =
     "enum: all schedules with at most P preemptions (P=2 quick, 3 thorough) at atomic-operation granularity (a context switch is possible "
     "before and after every load/store/compare-exchange, so the plain reads and writes between two atomic operations form their own step) for "
     "2 threads x all programs of 1..2 (quick) / 1..3 (thorough) insert/get operations per thread x capacity N in 1..2 (quick) / 1..3 (thorough), "
-    "with 0..N blocks cached beforehand [bounded-exhaustive]; pbt: random programs (up to 4 ops, 2..3 threads, N=1..4), random preemption "
+    "with 0..N blocks cached beforehand, plus operation-pool schedules (every operation a thread of its own, up to 6 operations, at most two of "
+    "them parked at any of their first 9 scheduling points and resumed after 0..n-1 further completions; quick: two parkings for up to 3 "
+    "operations, one for 5-6) [bounded-exhaustive]; pbt: random programs (up to 4 ops, 2..3 threads, N=1..4), random preemption "
     "points and spurious compare_exchange_weak failures; sequential histories in both configurations against a bounded LIFO model. Oracle "
     "(history invariants): every id returned by a fetch was successfully inserted, no id is returned twice, a failed insert's id is never "
     "returned (the block stays with its caller), and at quiescence a single-threaded drain returns exactly the ids inserted and not fetched; "
@@ -84,8 +86,39 @@ struct Sched {
 };
 static Sched* S = nullptr;
 static thread_local int me = -1;
+// ---- "operation pool" schedules: every operation is a thread of its own, started in index order. A thread may be parked once,
+// at its p-th scheduling point, and is resumed after r further operations have completed. This is the most general history
+// shape for this data structure (an operation's behaviour does not depend on which thread issues it): op-level order is
+// free, and the number of simultaneously in-flight operations is bounded by the number of parkings.
+struct Pool {
+  std::mutex m; std::condition_variable cv;
+  int n = 0, turn = -1; bool active = false;
+  std::vector<char> started, done, parked; std::vector<int> points, park_at, resume_after, remaining;
+  int parkings = 0; bool overlap = false;
+  int next_to_run() {
+    for (int k = 0; k < n; k++) if (parked[k] && remaining[k] <= 0) return k;
+    for (int k = 0; k < n; k++) if (!started[k]) return k;
+    int best = -1; for (int k = 0; k < n; k++) if (parked[k] && (best < 0 || remaining[k] < remaining[best])) best = k;
+    return best;
+  }
+};
+static Pool* PL = nullptr;
+static void pool_point() {
+  Pool& P = *PL;
+  std::unique_lock<std::mutex> lk(P.m);
+  int pc = ++P.points[me];
+  if (P.park_at[me] == pc) {
+    P.parked[me] = 1; P.remaining[me] = P.resume_after[me]; P.park_at[me] = -1; P.parkings++;
+    int nxt = P.next_to_run();
+    if (nxt == me) { P.parked[me] = 0; return; }   // nobody else can run
+    P.turn = nxt; P.cv.notify_all();
+    P.cv.wait(lk, [&] { return P.turn == me; });
+    P.parked[me] = 0;
+  }
+}
 static int pick_runnable(int start) { for (int k = 0; k < S->nthreads; k++) { int t = (start + k) % S->nthreads; if (!S->done[t]) return t; } return -1; }
 void sched_point(const char*) {
+  if (PL && PL->active && me >= 0) { pool_point(); return; }
   if (!S || !S->active || me < 0) return;
   std::unique_lock<std::mutex> lk(S->m);
   long p = S->point++;
@@ -143,6 +176,76 @@ static void run_concurrent(std::vector<Program>& progs, int prefill, c19::Sched&
   for (int k = 0; k < (int)N + 8; k++) { Val v = cache.get(); if (v.id == 0) break; drained.push_back(v.id); }
 }
 
+template <unsigned N>
+static void run_pool(std::vector<Op>& ops, int prefill, c19::Pool& P, std::vector<int>& drained) {
+  squids::detail::cache<Val, N> cache;
+  for (int k = 0; k < prefill; k++) cache.insert(Val(1000 + k));
+  int n = (int)ops.size();
+  P.n = n; P.started.assign(n, 0); P.done.assign(n, 0); P.parked.assign(n, 0); P.points.assign(n, 0); P.remaining.assign(n, 0);
+  c19::PL = &P;
+  std::vector<std::thread> th;
+  for (int t = 0; t < n; t++) th.emplace_back([&, t] {
+    c19::me = t;
+    { std::unique_lock<std::mutex> lk(P.m); P.cv.wait(lk, [&] { return P.turn == t; }); P.started[t] = 1; for (int o = 0; o < n; o++) if (P.parked[o]) P.overlap = true; }
+    Op& op = ops[t];
+    if (op.insert) op.ok = cache.insert(Val(op.id)); else { Val v = cache.get(); op.got = v.id; op.ok = v.id != 0; }
+    std::unique_lock<std::mutex> lk(P.m);
+    P.done[t] = 1;
+    for (int o = 0; o < n; o++) if (P.parked[o]) P.remaining[o]--;
+    P.turn = P.next_to_run();   // -1 when everything is done
+    P.cv.notify_all();
+    c19::me = -1;
+  });
+  { std::unique_lock<std::mutex> lk(P.m); P.active = true; P.turn = 0; P.started[0] = 0; P.cv.notify_all(); P.cv.wait(lk, [&] { return P.turn == -1; }); P.active = false; }
+  for (auto& t : th) t.join();
+  c19::PL = nullptr;
+  for (int k = 0; k < (int)N + 8; k++) { Val v = cache.get(); if (v.id == 0) break; drained.push_back(v.id); }
+}
+
+static void check_history(unsigned N, int prefill, const std::vector<const Op*>& all, const std::vector<int>& drained, const std::string& ctx) {
+  std::vector<int> inserted_ok, inserted_failed, fetched;
+  for (int k = 0; k < prefill; k++) inserted_ok.push_back(1000 + k);
+  for (const Op* op : all) { if (op->insert) (op->ok ? inserted_ok : inserted_failed).push_back(op->id); else if (op->got) fetched.push_back(op->got); }
+  auto count = [](const std::vector<int>& v, int x) { return (int)std::count(v.begin(), v.end(), x); };
+  for (int id : fetched) {
+    CHECK(count(inserted_ok, id) == 1 || count(inserted_failed, id) == 1, fmt("C19|fetch-returned-unknown-id|N=%u", N), "id %d was never offered :: %s", id, ctx.c_str());
+    CHECK(count(inserted_failed, id) == 0, fmt("C19|fetch-returned-id-of-failed-insert|N=%u", N), "id %d :: %s", id, ctx.c_str());
+    CHECK(count(fetched, id) == 1, fmt("C19|block-handed-to-two-takers|N=%u", N), "id %d fetched %d times :: %s", id, count(fetched, id), ctx.c_str());
+  }
+  for (int id : drained) {
+    CHECK(count(inserted_ok, id) == 1, fmt("C19|drain-returned-unknown-or-failed-id|N=%u", N), "id %d :: %s", id, ctx.c_str());
+    CHECK(count(fetched, id) == 0, fmt("C19|block-handed-to-two-takers|N=%u", N), "id %d fetched during the run and again by the drain :: %s", id, ctx.c_str());
+    CHECK(count(drained, id) == 1, fmt("C19|block-handed-to-two-takers|N=%u", N), "id %d drained twice :: %s", id, ctx.c_str());
+  }
+  for (int id : inserted_ok)
+    CHECK(count(fetched, id) + count(drained, id) == 1, fmt("C19|inserted-block-lost|N=%u", N), "id %d was inserted successfully but neither fetched nor drained :: %s", id, ctx.c_str());
+  CHECK(drained.size() <= N, fmt("C19|cache-holds-more-than-its-capacity|N=%u", N), "%zu blocks drained :: %s", drained.size(), ctx.c_str());
+}
+
+static void run_pool_case(ByteSource& s, CaseInfo& ci) {
+  unsigned N = 1 + s.choose(4);
+  int prefill = (int)s.choose(N + 1);
+  int n = 1 + (int)s.choose(6);
+  std::vector<Op> ops(n);
+  std::string desc = fmt("pool N=%u prefill=%d ops:", N, prefill);
+  int next_id = 1;
+  for (int k = 0; k < n; k++) { ops[k].insert = s.choose(2) == 1; ops[k].id = ops[k].insert ? next_id++ : 0; ops[k].ok = false; ops[k].got = 0; desc += ops[k].insert ? fmt(" ins(%d)", ops[k].id) : std::string(" get"); }
+  c19::Pool P;
+  P.park_at.assign(n, -1); P.resume_after.assign(n, 0);
+  int np = (int)s.choose(4);
+  for (int q = 0; q < np; q++) { int t = (int)s.choose(n); int pt = 1 + (int)s.choose(12); int r = (int)s.choose(6); if (P.park_at[t] < 0) { P.park_at[t] = pt; P.resume_after[t] = r; desc += fmt(" | park op%d at point %d, resume after %d completions", t, pt, r); } }
+  std::vector<int> drained;
+  switch (N) { case 1: run_pool<1>(ops, prefill, P, drained); break; case 2: run_pool<2>(ops, prefill, P, drained); break; case 3: run_pool<3>(ops, prefill, P, drained); break; default: run_pool<4>(ops, prefill, P, drained); }
+  std::string ctx = desc + " || result:";
+  std::vector<const Op*> all;
+  for (Op& op : ops) { all.push_back(&op); ctx += op.insert ? fmt(" ins(%d)=%d", op.id, (int)op.ok) : fmt(" get=%d", op.got); }
+  ctx += " || drain:"; for (int d : drained) ctx += fmt(" %d", d);
+  ci.sample = ctx; ci.label(fmt("pool-N%u-n%d", N, n)); ci.label(fmt("parkings-%d", P.parkings));
+  ci.nontrivial = P.overlap;
+  ci.set_digest(fnv1a(desc.data(), desc.size()));
+  check_history(N, prefill, all, drained, ctx);
+}
+
 template <class Cache, unsigned N>
 static void run_sequential(ByteSource& s, CaseInfo& ci, const char* cfg) {
   Cache cache;
@@ -170,7 +273,8 @@ static void run_sequential(ByteSource& s, CaseInfo& ci, const char* cfg) {
 }
 
 void run_case(ByteSource& s, CaseInfo& ci) {
-  unsigned mode = s.choose(3);  // 0: concurrent, 1: sequential shared config, 2: sequential thread-local config
+  unsigned mode = s.choose(4);  // 0: concurrent programs, 1: sequential shared config, 2: sequential thread-local config, 3: operation pool
+  if (mode == 3) { run_pool_case(s, ci); return; }
   unsigned N = 1 + s.choose(4);
   if (mode == 1) { switch (N) { case 1: run_sequential<squids::detail::cache<Val, 1>, 1>(s, ci, "shared"); break; case 2: run_sequential<squids::detail::cache<Val, 2>, 2>(s, ci, "shared"); break; case 3: run_sequential<squids::detail::cache<Val, 3>, 3>(s, ci, "shared"); break; default: run_sequential<squids::detail::cache<Val, 4>, 4>(s, ci, "shared"); } return; }
   if (mode == 2) { switch (N) { case 1: run_sequential<squids_tl::detail::cache<Val, 1>, 1>(s, ci, "thread-local"); break; case 2: run_sequential<squids_tl::detail::cache<Val, 2>, 2>(s, ci, "thread-local"); break; case 3: run_sequential<squids_tl::detail::cache<Val, 3>, 3>(s, ci, "thread-local"); break; default: run_sequential<squids_tl::detail::cache<Val, 4>, 4>(s, ci, "thread-local"); } return; }
@@ -245,4 +349,24 @@ void enumerate(const Emit& emit, const std::string& tier) {
       std::vector<int> pre;
       rec(pre, 0);
     }
+  // operation pool: every operation its own thread, free op-level order via parking (point p, resume after r completions)
+  {
+    int nmax2 = quick ? 3 : 6, nmax1 = 6, maxpt = 9;
+    std::vector<int> Ns = quick ? std::vector<int>{1, 2} : std::vector<int>{2, 3};
+    for (int N : Ns) for (int prefill : {0, N}) for (int n = 1; n <= nmax1; n++) for (int types = 0; types < (1 << n); types++) {
+      std::vector<uint8_t> head = {3, (uint8_t)(N - 1), (uint8_t)prefill, (uint8_t)(n - 1)};
+      for (int k = 0; k < n; k++) head.push_back((uint8_t)((types >> k) & 1));
+      { std::vector<uint8_t> b = head; b.push_back(0); emit(b); }
+      for (int t1 = 0; t1 < n; t1++) for (int p1 = 1; p1 <= maxpt; p1++) for (int r1 = 0; r1 < n; r1++) {
+        { std::vector<uint8_t> b = head; b.push_back(1); b.push_back((uint8_t)t1); b.push_back((uint8_t)(p1 - 1)); b.push_back((uint8_t)r1); emit(b); }
+        if (n > nmax2) continue;
+        for (int t2 = t1 + 1; t2 < n; t2++) for (int p2 = 1; p2 <= maxpt; p2++) for (int r2 = 0; r2 < n; r2++) {
+          std::vector<uint8_t> b = head; b.push_back(2);
+          b.push_back((uint8_t)t1); b.push_back((uint8_t)(p1 - 1)); b.push_back((uint8_t)r1);
+          b.push_back((uint8_t)t2); b.push_back((uint8_t)(p2 - 1)); b.push_back((uint8_t)r2);
+          emit(b);
+        }
+      }
+    }
+  }
 }
